@@ -143,7 +143,7 @@ theorem shorthand_repaired :
 /-! ### value lemmas (builder/value.rs): after `validate_unicode_escapes` the two panics of the `\u` arms are
     unreachable -/
 
-/-- An escape that passed the validation decodes: `u32::from_str_radix(..).unwrap()` and
+/-- An escape (other than half of a surrogate pair) that passed the validation decodes: `u32::from_str_radix(..).unwrap()` and
     `char::from_u32(..).expect(..)` both succeed on its digits. (Findings w: `"\uD800"`, `"\u{110000}"`,
     more than 8 hex digits — repaired by 668f535.) -/
 theorem validated_escape_decodes (digits : List Char) (h : escapeDenotesChar digits = true) :
@@ -156,6 +156,29 @@ theorem validated_escape_decodes (digits : List Char) (h : escapeDenotesChar dig
     exact ⟨Char.ofNat n, by simp [bind, Except.bind, charFromU32, h]⟩
 
 example : escapeDenotesChar ['1', 'F', '6', '0', '0'] = true := by decide +kernel
+
+/-- (fix fff8e9c) The pair arm of `build_string_value`: the code `0x10000 + ((lead − 0xD800) << 10) + (trail − 0xDC00)` of a
+    leading surrogate `0xD800..=0xDBFF` and a trailing surrogate `0xDC00..=0xDFFF` is ALWAYS a (supplementary) scalar value,
+    so `char::from_u32(code).expect("Invalid character code")` in that arm cannot panic. -/
+theorem surrogate_pair_decodes (lead trail : Nat) (h1 : isLeadSurrogate lead = true) (h2 : isTrailSurrogate trail = true) :
+    charFromU32 (surrogatePairCode lead trail) = .ok (Char.ofNat (surrogatePairCode lead trail)) ∧
+      0x10000 ≤ surrogatePairCode lead trail ∧ surrogatePairCode lead trail ≤ 0x10FFFF := by
+  obtain ⟨hv, hlo, hhi⟩ := surrogatePair_valid h1 h2
+  exact ⟨by simp [charFromU32, hv], hlo, hhi⟩
+
+example : isLeadSurrogate 0xD83D = true ∧ isTrailSurrogate 0xDE00 = true ∧ surrogatePairCode 0xD83D 0xDE00 = 0x1F600 := by
+  decide
+
+/-- (fix fff8e9c) A string that passed the loop of `validate_unicode_escapes` decodes: for the `StringCharacter` pairs `l` of a
+    `NormalStringValue` of any parse tree (`CharsOk`: pairs of the tree, in the shape of their rule, witnessed by the
+    grammar), if the validation loop over their characters finds nothing (`scanEscapes … = none`: every `\u` escape denotes
+    a scalar value or is half of a surrogate pair `\uHHHH\uLLLL` inside this string), the loop of `build_string_value` —
+    which peeks for a trailing surrogate after every `\uXXXX` — ends in a value: none of its `unwrap` / `expect` sites is
+    reached. -/
+theorem validated_string_decodes (inp : List Char) (l : List Pair) (hl : CharsOk inp l)
+    (hv : scanEscapes (Ctx.spec inp) none (l.flatMap Pair.children) = none) :
+    Quiet (decodeChars (Ctx.spec inp) false l) :=
+  (quiet_decodeChars l hl).1 hv
 
 /-- the escapes of findings w are exactly what the validation rejects -/
 theorem invalid_escapes_rejected :
@@ -171,7 +194,9 @@ theorem witnesses_are_diagnostics :
     (parseOp "query { a(s: \"\\uD800\") }".toList).isPanic = false ∧
     (parseOp "query { a(s: \"\\u{110000}\") }".toList).isPanic = false ∧
     (parseOp "query { a(s: \"\\u{123456789}\") }".toList).isPanic = false ∧
-    (parseOp "{ a }".toList).isPanic = false := by
+    (parseOp "{ a }".toList).isPanic = false ∧
+    (parseOp "query { a(s: \"\\uD83D\\uDE00\") }".toList).isPanic = false ∧
+    (parseOp "query { a(s: \"\\uD83D\") b(t: \"\\uDE00\") }".toList).isPanic = false := by
   decide +kernel
 
 /-! ### observation z (DESIGN §9): nested list types parse in exponentially many steps -/
@@ -237,7 +262,8 @@ example : (match Peg.parse gList 64 R.OperationType "query".toList with
     directive definitions, both documents): each is only handed a pair of its subject rule, every matcher succeeds
     (`run_children_in_shape` + the kernel-evaluated `accepts` of every extracted pattern against the shape of the
     GENERATED grammar), every text-dependent site has its precondition (`pair_text_preconditions`), and the `\u` arms
-    decode because `validate_unicode_escapes` passed. -/
+    decode because `validate_unicode_escapes` passed (`validated_string_decodes`; since fix fff8e9c the validation runs per
+    string and accepts a surrogate pair `\uHHHH\uLLLL`, which the builder combines — `surrogate_pair_decodes`). -/
 theorem parse_no_panic (input : List Char) :
     (parseOp input).isPanic = false ∧ (parseTs input).isPanic = false :=
   ⟨parseWith_noPanic R.ExecutableDocument buildOperationDocument input look_ExecutableDocument (by decide)
